@@ -26,6 +26,8 @@ func c10Histories(tier string) [][]string {
 		`![1,2,3][b:a][0]()`,
 		// the failing call's parameters and locals carry the names of globals the later inputs read and write
 		`!func e3(u, n, t){m := [u]; error("bad")}; e3("s", "n", "t")`,
+		`!func r9(n){r9(n+1)}; for i = 3 {r9(i)}`,
+		`!for j = 2 {for i = 2 {[1][i+5]}}`,
 		`!func e4(i){for 2 {e3b=func(u, n){error("inner")}; e3b(i, i)}}; e4("x")`,
 	}
 	var out [][]string
@@ -65,7 +67,7 @@ func init() {
 		},
 		Budget: map[string]time.Duration{"quick": 6 * time.Minute, "thorough": 40 * time.Minute},
 		Reach:  []string{"failing input failed", "failing input panicked"},
-		Bounds: map[string]interface{}{"histories": "10 succeeding inputs (prints, function definitions and calls, loops, closures, map updates, recursion) and 10 failing ones (failing calls whose parameters and locals are named like globals, error in nested calls, error in a loop, depth overflow at top level / inside a function that printed / inside nested loops and lambdas, error after a print inside a function, unknown identifier, ill-typed call); every failing input between a third of the ordered pairs of succeeding inputs (all pairs thorough), repeated failures at several positions, every ordered pair of failing inputs in a row, definitions made between two failures and used after the second; after every input the state is also required to be back at the root scope with depth 0 and the session writer in place",
+		Bounds: map[string]interface{}{"histories": "10 succeeding inputs (prints, function definitions and calls, loops, closures, map updates, recursion) and 12 failing ones (a panic and an error inside top-level counted loops, failing calls whose parameters and locals are named like globals, error in nested calls, error in a loop, depth overflow at top level / inside a function that printed / inside nested loops and lambdas, error after a print inside a function, unknown identifier, ill-typed call); every failing input between a third of the ordered pairs of succeeding inputs (all pairs thorough), repeated failures at several positions, every ordered pair of failing inputs in a row, definitions made between two failures and used after the second; after every input the state is also required to be back at the root scope with depth 0 and the session writer in place",
 			"values": "a, b: all int64", "max_depth": 40},
 		Assumptions: []string{"deadline failures are not modelled (context.WithTimeout is stubbed to its parent): covered for the evaluator by C09's cancellation lemma"},
 		Outside:     []string{"timeouts inside the REPL", "longer histories"},
